@@ -15,14 +15,19 @@ OBLIGATIONS = ["sem_join", "sem_projection", "sem_slice", "fao_optimal",
                "dpop_util_sem_partial", "dpop_util_sem", "dpop_choice_opt", "dpop_util_accumulates", "dpop_value_opt", "dpop_root_opt",
                "dpop_value_forward", "dpop_all_schedules_partial",
                "dpop_check_valid", "dpop_no_raise_all_schedules", "dpop_invariant_all_schedules",
-               "dpop_complete_all_finished", "dpop_optimal", "dpop_cost_is_dcop_cost", "dpop_all_schedules"]
+               "dpop_complete_all_finished", "dpop_optimal", "dpop_cost_is_dcop_cost", "dpop_all_schedules",
+               # end to end with the pseudo-tree builder of C17 (P_DpopBuilt*.v)
+               "wf_rdcopb_sound", "ownership_lowest", "ownership_partition", "built_tree_valid",
+               "dpop_check_complete", "built_tree_check", "dpop_on_built_tree", "dpop_built_ok_correct",
+               "dpop_cost_offset_zeroary", "dpop_on_built_tree_general"]
 N_QUICK, N_THOROUGH = 400, 8000
 PARALLEL = 8
 SHARD = 40
 RULE = ("seeded random DCOPs: 1-7 variables, domain sizes 1-3 (values offset from their index), n-ary matrix "
         "constraints of arity 1-4, expression constraints (linear / abs / equality), duplicate scopes, unary "
         "constraints, variables with (partial) cost dicts, costs mostly small and in 8% of the cases up to +/-3e9 or around 2^31 (the old int32 sentinel), min and max, shapes random/tree/chain/clique/forest "
-        "with isolated variables; the pseudo-tree is the one pseudotree.build_computation_graph returns; the "
+        "with isolated variables, variables added to the DCOP in a shuffled order in 30% of the cases; the "
+        "pseudo-tree is the one pseudotree.build_computation_graph returns; the "
         "real DpopAlgo objects are driven thread-free by netdriver under a seeded start order and per-channel "
         "FIFO schedule from 6 policies (15% truncated schedules to compare intermediate states). "
         "non-trivial = at least one UTIL and one VALUE message handled; distinct = distinct case JSON")
@@ -37,7 +42,17 @@ MODELLED = ("DpopAlgo (__init__ ownership filter and initial table, on_start, _o
             "one UTIL up and one VALUE down per tree edge, meaning of every accumulated table and message). "
             "The correspondence run compares every message, selection, finished call, final tables and in-flight "
             "messages on the recorded schedule, evaluates dpop_check on the pseudo-tree pydcop built (so the "
-            "theorem's hypothesis is checked on every real input), and a brute-force oracle checks optimality.")
+            "theorem's hypothesis is checked on every real input), and a brute-force oracle checks optimality. "
+            "END TO END (P_DpopBuilt*.v): THEOREM dpop_on_built_tree -- for every DCOP with a well-formed "
+            "constraint graph and non-empty domains, DPOP run on the tree returned by the Gallina model of "
+            "pseudotree.build_computation_graph (C17's build) satisfies the conclusion above on every schedule, "
+            "with no hypothesis on the tree: dpop_check is DERIVED from C17's PT_valid + 'a tree edge is a "
+            "constraint-graph edge' + the lowest-node argument (ownership_lowest, ownership_partition); "
+            "zero-ary constraints are covered by dpop_on_built_tree_general. The correspondence additionally "
+            "checks in Coq that the dcop + tree extracted from the real objects equals, node by node and in "
+            "list order, dpop_of (builder model + translation) of the tree-less DCOP (variables and constraints "
+            "in the order the real DCOP object lists them) and that wf_rdcopb holds (built_ok; "
+            "dpop_built_ok_correct proves built_ok P = true implies the all-schedules conclusion for P).")
 META = dict(
     level_text=("Proof (Coq) over an executable model of DpopAlgo plugged into the asynchronous network model: for every "
                 "DCOP whose pseudo-tree passes the executable validity checker (forest with converse links, kept "
@@ -48,11 +63,16 @@ META = dict(
                 "(min or max, n-ary / unary constraints, variable costs, any number of components). Also: the meaning "
                 "of join / projection / slice / find_arg_optimal and the handler-level steps. Tied to dpop.py / "
                 "relations.py / pseudotree.py by replaying recorded schedules on the real computations and by "
-                "evaluating the checker on every pseudo-tree the real builder returns."),
-    level_note=("Trusted: Coq kernel/vm_compute, M_Dpop.v + Net.v as a rendering of the Python code, the thread-free "
-                "netdriver, integer costs (floats exact), non-empty domains. The pseudo-tree is an input; that the "
-                "builder's output passes dpop_check is checked per generated case, not proved (C17 proves PT_valid of "
-                "the builder's output; the derivation dpop_check from PT_valid is not formalised)."),
+                "evaluating the checker on every pseudo-tree the real builder returns. End to end: the checker's "
+                "hypothesis is proved for the output of the model of the pseudo-tree builder (C17) on every "
+                "well-formed DCOP, so DPOP on the tree pydcop builds is optimal on every schedule with no hypothesis "
+                "on the tree (dpop_on_built_tree); the run compares the real tree with the builder model."),
+    level_note=("Trusted: Coq kernel/vm_compute, M_Dpop.v + Net.v + M_PseudoTree.v + the translation M_DpopBuilt.v as "
+                "renderings of the Python code, the thread-free netdriver, integer costs (floats exact), non-empty "
+                "domains. The pseudo-tree is no longer an assumption: dpop_on_built_tree composes C17's proof of the "
+                "builder model with the DPOP theorem (hypothesis: well-formed constraint graph + non-empty domains, "
+                "evaluated as wf_rdcopb on every real input); that the real builder equals its model is checked per "
+                "case (built_ok), as in C17."),
     technique="Coq invariant proof over an executable network model + schedule-replay correspondence",
     design_ref="DESIGN.md §5 C01",
 )
@@ -160,8 +180,11 @@ def gen(rng, n, tier):
             else:
                 vcost.append({str(k): rng.randint(lo, hi) for k in range(doms[i]) if rng.random() < 0.85})
         steps = rng.randint(0, 14) if rng.random() < 0.15 else None
+        # order in which the variables are added to the DCOP (= dcop.variables order = the order the
+        # pseudo-tree builder receives them); None = v00, v01, ...
+        vorder = rng.sample(range(nv), nv) if rng.random() < 0.3 else None
         cases.append(dict(mode=rng.choice(["min", "max"]), doms=doms, offs=offs, cons=cons, vcost=vcost,
-                          seed=rng.randrange(10**9), steps=steps, shape=shape))
+                          seed=rng.randrange(10**9), steps=steps, shape=shape, vorder=vorder))
     return cases
 
 
@@ -194,8 +217,8 @@ def build_dcop(c):
         else:
             vs.append(VariableWithCostDict(_v(i), dom, {c["offs"][i] + int(k): w for k, w in c["vcost"][i].items()}))
     dcop = DCOP("t", c["mode"])
-    for v in vs:
-        dcop.add_variable(v)
+    for i in (c.get("vorder") or range(nv)):
+        dcop.add_variable(vs[i])
     for k, cc in enumerate(c["cons"]):
         if cc["kind"] == "matrix":
             dcop.add_constraint(NAryMatrixRelation([vs[x] for x in cc["scope"]], cc["table"], name=_c(k)))
